@@ -35,8 +35,10 @@ import (
 
 // Epoch is one sharing of the group secret.
 type Epoch struct {
-	N, Thr  int
-	Shares  []*key.Share // by group index
+	N, Thr  int          // N = number of dealt share indices 0..N-1 (members and vacant ones)
+	Members []int        // the indices held by group members, ascending; the others are vacant
+	Shares  []*key.Share // by share index (the holders of vacant indices have valid shares too:
+	// they are the participants a DKG left out of QUAL)
 	Group   *key.Group
 	PubPoly *share.PubPoly
 }
@@ -200,18 +202,13 @@ func deal(sch *crypto.Scheme, secret kyber.Scalar, n, thr int) ([]*key.Share, *s
 
 // NewWorld builds the group (epoch 0) and the node under test, not yet started.
 // storeKind: "memdb" | "bolt".
-func NewWorld(sch *crypto.Scheme, n, thr, me int, period, genesis, now int64, storeKind string) (*World, error) {
+// vacant: share indices of epoch 0 that no group member holds (n members + len(vacant) dealt indices).
+func NewWorld(sch *crypto.Scheme, n, thr, me int, period, genesis, now int64, storeKind string, vacant ...int) (*World, error) {
 	w := &World{Sch: sch, Period: period, Genesis: genesis, Me: me, ref: map[uint64]*common.Beacon{}}
 	w.Log = log.New(discardSync{}, log.ErrorLevel, false)
 	w.Secret = sch.KeyGroup.Scalar().Pick(random.New())
-	for i := 0; i < n; i++ {
-		p, err := key.NewKeyPair(fmt.Sprintf("127.0.0.1:%d", 7000+i), sch)
-		if err != nil {
-			return nil, err
-		}
-		w.Privs = append(w.Privs, p)
-	}
-	ep, err := w.newEpoch(n, thr, 0)
+	w.Me = me
+	ep, err := w.newEpoch(n, thr, 0, vacant)
 	if err != nil {
 		return nil, err
 	}
@@ -250,7 +247,15 @@ func NewWorld(sch *crypto.Scheme, n, thr, me int, period, genesis, now int64, st
 	return w, w.newHandler()
 }
 
-func (w *World) newEpoch(n, thr int, transition int64) (*Epoch, error) {
+func (w *World) newEpoch(members, thr int, transition int64, vacant []int) (*Epoch, error) {
+	n := members + len(vacant)
+	isVacant := map[int]bool{}
+	for _, v := range vacant {
+		if v < 0 || v >= n || v == w.Me {
+			return nil, fmt.Errorf("bad vacant index %d", v)
+		}
+		isVacant[v] = true
+	}
 	shares, pub, commits := deal(w.Sch, w.Secret, n, thr)
 	for len(w.Privs) < n {
 		p, err := key.NewKeyPair(fmt.Sprintf("127.0.0.1:%d", 7000+len(w.Privs)), w.Sch)
@@ -259,9 +264,14 @@ func (w *World) newEpoch(n, thr int, transition int64) (*Epoch, error) {
 		}
 		w.Privs = append(w.Privs, p)
 	}
-	nodes := make([]*key.Node, n)
+	var nodes []*key.Node
+	var mem []int
 	for i := 0; i < n; i++ {
-		nodes[i] = &key.Node{Index: uint32(i), Identity: w.Privs[i].Public}
+		if isVacant[i] {
+			continue
+		}
+		mem = append(mem, i)
+		nodes = append(nodes, &key.Node{Index: uint32(i), Identity: w.Privs[i].Public})
 	}
 	g := key.LoadGroup(nodes, w.Genesis, &key.DistPublic{Coefficients: commits}, time.Duration(w.Period)*time.Second, 0, w.Sch, "default")
 	g.Threshold = thr
@@ -271,7 +281,26 @@ func (w *World) newEpoch(n, thr int, transition int64) (*Epoch, error) {
 		g.GenesisSeed = w.Epochs[0].Group.GenesisSeed
 		g.TransitionTime = transition
 	}
-	return &Epoch{N: n, Thr: thr, Shares: shares, Group: g, PubPoly: pub}, nil
+	return &Epoch{N: n, Thr: thr, Members: mem, Shares: shares, Group: g, PubPoly: pub}, nil
+}
+
+// IsMember reports whether share index i is held by a member of this epoch's group.
+func (e *Epoch) IsMember(i int) bool {
+	for _, m := range e.Members {
+		if m == i {
+			return true
+		}
+	}
+	return false
+}
+
+func (e *Epoch) node(i int) *key.Node {
+	for _, n := range e.Group.Nodes {
+		if int(n.Index) == i {
+			return n
+		}
+	}
+	return nil
 }
 
 func (w *World) cur() *Epoch { return w.Epochs[len(w.Epochs)-1] }
@@ -281,7 +310,7 @@ func (w *World) newHandler() error {
 	ep := w.Epochs[0]
 	// after a reshare the node restarts with its latest group/share
 	ep = w.cur()
-	conf := &beacon.Config{Group: ep.Group, Public: ep.Group.Nodes[w.Me], Share: ep.Shares[w.Me], Clock: w.CClock}
+	conf := &beacon.Config{Group: ep.Group, Public: ep.node(w.Me), Share: ep.Shares[w.Me], Clock: w.CClock}
 	h, err := beacon.NewHandler(context.Background(), w.Client, w.Rec, conf, w.Log, common.GetAppVersion())
 	if err != nil {
 		return err
